@@ -17,7 +17,7 @@ MIN_COUNTERS = {'quick': {'contract_evaluations': 150, 'line_events_monitored': 
 CASE_TIMEOUT = 600
 RULE = ('shipped cases: every shipped non-BurnMan configuration built, scaled by a random factor in [0.1,10] and derived once; random cases: a '
         'random 1-6 layer configuration (each layer given by radius or thickness, and by density, mass or mass fraction) followed by a chain of '
-        '1-6 derivations mixing build_from_world / scale_from_world with and without new_name, incl. names already containing _variant; '
+        '1-6 derivations mixing build_from_world / scale_from_world with and without new_name, with nested per-layer overrides of a random subset of layers in random order, incl. names already containing _variant; '
         'non-trivial = at least one world was built and all post-conditions were evaluated; distinct by configuration / sub-seed')
 ASSUMPTIONS = ['G = 6.6743e-11 as used by TidalPy', 'relative tolerances 1e-12 (volume, mass sums, gravity) and 1e-9 of the world radius (contiguity)',
                'line budget 10^4 events per build_from_world call (a healthy call executes < 100)']
@@ -132,6 +132,35 @@ def install():
         icontract.ensure(built_world_is_consistent, error=PostBroken)(wb.scale_from_world)))
     wb.scale_from_world = sfw
     _state.update(installed=True, bw=bw, bfw=bfw, sfw=sfw)
+
+
+def layer_override(rng, parent):
+    """a user override of nested keys of a random non-empty subset of the parent's layers, listed in random order"""
+    keys = list(parent.config['layers'].keys())
+    k = int(rng.integers(1, len(keys) + 1))
+    subset = [keys[i] for i in rng.permutation(len(keys))[:k]]
+    return {'layers': {nm: {'slices': int(rng.integers(12, 60)), 'rheology': {'alpha': float(rng.uniform(0.1, 0.5))}} for nm in subset}}
+
+
+def override_issues(parent, child, newc):
+    """the derived world keeps the parent's layer order, carries the overridden values and keeps every other layer entry"""
+    out = []
+    pn, cn = [l.name for l in parent.layers], [l.name for l in child.layers]
+    if pn != cn:
+        out.append(f'layer order changed: parent {pn}, derived {cn}')
+    for nm, ov in newc['layers'].items():
+        got = child.config['layers'].get(nm, {})
+        if got.get('slices') != ov['slices'] or got.get('rheology', {}).get('alpha') != ov['rheology']['alpha']:
+            out.append(f'override of layer {nm} did not reach the derived config: slices {got.get("slices")!r} (wanted {ov["slices"]!r}), alpha {got.get("rheology", {}).get("alpha")!r}')
+    for nm, pl in parent.config['layers'].items():
+        cl = child.config['layers'].get(nm)
+        if cl is None:
+            out.append(f'layer {nm} missing from the derived config')
+            continue
+        for key in ('type', 'radius', 'thickness', 'density', 'mass', 'mass_frac'):
+            if key in pl and pl[key] != cl.get(key):
+                out.append(f'layer {nm}: {key} changed from {pl[key]!r} to {cl.get(key)!r} although it was not overridden')
+    return out
 
 
 def random_config(rng, name):
@@ -261,6 +290,19 @@ def eval_case(c):
                     V('new-config-argument-mutated', f'build_from_world({nm!r}) mutated its new_config argument')
                 if oc != w.config:
                     V('old-world-config-mutated', f'build_from_world({nm!r}) mutated the old world\'s config')
+                if len(w.layers) > 1:
+                    # user override of nested keys of a layer that is not the top one
+                    tgt = [l.name for l in w.layers][int(rng.integers(0, len(w.layers) - 1))]
+                    newc = {'layers': {tgt: {'slices': int(rng.integers(12, 60)), 'rheology': {'alpha': 0.27}}}}
+                    nc = copy.deepcopy(newc)
+                    d2 = guarded(bfw, f'build_from_world({nm!r}, override of layer {tgt})', w, newc)
+                    if d2 is not None:
+                        for iss in override_issues(w, d2, nc):
+                            V('derived-world-layer-override', f'build_from_world({nm!r}, override of layer {tgt}): {iss}')
+                    if newc != nc:
+                        V('new-config-argument-mutated', f'build_from_world({nm!r}) mutated its nested new_config argument')
+                    if oc != w.config:
+                        V('old-world-config-mutated', f'build_from_world({nm!r}, layer override) mutated the old world\'s config')
         obs = {'shipped_worlds_built': done}
     elif c['kind'] == 'random':
         rng = np.random.default_rng([c['seed'], 16, 100 + c['sub']])
@@ -276,7 +318,7 @@ def eval_case(c):
             if w is None:
                 break
             oc = copy.deepcopy(w.config)
-            op = int(rng.integers(4))
+            op = int(rng.integers(5))
             parent = w
             if op == 0:
                 f = float(10 ** rng.uniform(-1, 1))
@@ -293,6 +335,16 @@ def eval_case(c):
                 w = guarded(bfw, f'build_from_world(new_config=albedo) at chain step {s_} {chain}', parent, newc)
                 if newc != nc:
                     V('new-config-argument-mutated', 'build_from_world mutated its new_config argument')
+            elif op == 4:
+                newc = layer_override(rng, parent)
+                nc = copy.deepcopy(newc)
+                chain.append(['derive_layer_override', list(newc['layers'].keys())])
+                w = guarded(bfw, f'build_from_world(new_config=layer override {list(newc["layers"].keys())}) at chain step {s_} {chain}', parent, newc)
+                if w is not None:
+                    for iss in override_issues(parent, w, nc):
+                        V('derived-world-layer-override', f'chain step {s_} {chain[-1]}: {iss}')
+                if newc != nc:
+                    V('new-config-argument-mutated', 'build_from_world mutated its nested new_config argument')
             else:
                 nm = f'custom{s_}' if rng.random() < 0.5 else parent.name
                 chain.append(['derive_named', nm])
